@@ -44,6 +44,29 @@ func sortedKeys[V any](m map[string]V) []string {
 func newInterp(p *core.Program, fn *core.FuncRef) *absint.Interp {
 	in := &absint.Interp{Info: fn.Info(), Prog: p}
 	in.Hooks.Inline = helperInline(p, fn.Pkg.PkgPath, fn.Obj)
+	in.Hooks.FreeClosure = func(v *types.Var) *ast.FuncLit {
+		// a local of the enclosing function bound exactly once, to a literal (`limitReached := func() bool {…}`)
+		info := fn.Info()
+		var lit *ast.FuncLit
+		n := 0
+		ast.Inspect(fn.Decl.Body, func(m ast.Node) bool {
+			as, ok := m.(*ast.AssignStmt)
+			if !ok || len(as.Lhs) != len(as.Rhs) {
+				return true
+			}
+			for i, l := range as.Lhs {
+				if id, ok := l.(*ast.Ident); ok && (info.Defs[id] == v || info.Uses[id] == v) {
+					n++
+					lit, _ = core.Unparen(as.Rhs[i]).(*ast.FuncLit)
+				}
+			}
+			return true
+		})
+		if n == 1 {
+			return lit
+		}
+		return nil
+	}
 	return in
 }
 
